@@ -150,3 +150,8 @@ package types
 //@ fn Context.Params
 //@   nopanic
 //@   ensures [C20] self: result == box(ctx)
+
+//@ fn Context.Range
+//@   requires ctx != nil && f != nil
+//@ fn MiddlewareFunc.Middleware
+//@   requires f != nil
